@@ -218,7 +218,12 @@ def extra_checks(pid, tier, seed):
     if pid == "C09":
         return _constructor_rejections()
     if pid in ("C06", "C07", "C14"):
-        return _absorbing_workers(pid)
+        fails = _absorbing_workers(pid)
+        if pid == "C06" and not fails:
+            # "exactly the named tasks" also means: of *this* pool (another pool in the same loop
+            # has tasks with the same ids) - the solo/duo differential of C11
+            fails = _noninterference(tier, seed + 1)
+        return fails
     if pid == "C15":
         return _negative_sizes()
     if pid != "C11":
